@@ -95,6 +95,13 @@ var Helpers = []*HelperEntity{
 		Model: func(p []int, in [][]F) [][]F {
 			return [][]F{mapModel(in[0], func(v F) F { return math.Sqrt(math.Pow(v, 2)) })}
 		}},
+	{Name: "helper.Pow", NIn: 1, NParam: 1, // whole and fractional exponents, on values with decimals
+		Build: func(p []int, in []<-chan F) []<-chan F {
+			return one(helper.Pow(helper.Map(in[0], func(v F) F { return v*1.1 + 0.37 }), F(p[0]%19-4)/2))
+		},
+		Model: func(p []int, in [][]F) [][]F {
+			return [][]F{mapModel(in[0], func(v F) F { return math.Pow(v*1.1+0.37, F(p[0]%19-4)/2) })}
+		}},
 	{Name: "helper.Filter", NIn: 1,
 		Build: func(p []int, in []<-chan F) []<-chan F {
 			return one(helper.Filter(in[0], func(v F) bool { return int(v)%2 == 0 }))
@@ -460,6 +467,8 @@ func (c16) Gen(rng *rand.Rand, tier string, k int) *Case {
 		n := rng.Intn(13)
 		if rng.Intn(6) == 0 {
 			n = 0
+		} else if rng.Intn(12) == 0 {
+			n = 13 + rng.Intn(70) // longer than any fixed-size internal buffer
 		}
 		c.Lens = make([]int, h.NIn)
 		for i := range c.Lens {
